@@ -118,28 +118,50 @@ def run_check(pid, tier, seed):
 
     # ------------------------------------------------------------------ Verus
     if plan.get("verus", True):
-        path, mp, err = vx.extract(bdir)
-        if err:
-            return finish_undecided_or_replay(pid, tier, seed, t0, "extraction: " + err, plan)
-        attr = vx.Attribution(mp)
-        # the vacuity-probe build runs concurrently with the main run
-        NSHARD = 1
-        pshards, perr = [], None
-        if os.environ.get("VERIF_NO_PROBES"):
-            # scratch evaluation of seeded changes: the probes guard the CONTRACTS against vacuity and are run by every
-            # registered check; they say nothing about an edited tree
-            perr = "skipped (VERIF_NO_PROBES)"
-        for sh in range(NSHARD if perr is None else 0):
-            ppath, pmp, e = vx.extract(bdir, probes=True, name="fb_probe%d" % sh, probe_prop=(None if tier == "thorough" else pid), shard=(NSHARD, sh))
-            if e is not None:
-                perr = e
-                break
-            pshards.append((ppath, pmp, vx.start_verus(ppath, seed=seed, multiple_errors=400, threads=12, rlimit=60)))
-        res = vx.run_verus(path, seed=seed, threads=12)
-        verus_info = res
-        if res["json"] is None:
-            return finish_undecided_or_replay(pid, tier, seed, t0, "verus produced no result: " + res["stderr"][-600:], plan)
-        failures, cerrs, rl = vx.classify(res["diags"], attr)
+        assume_fns = []
+        for attempt in range(4):
+          # (loop: a function whose text Verus rejects is demoted to its contract and the file re-generated, see below)
+          path, mp, err = vx.extract(bdir, assume_fns=assume_fns)
+          if err:
+              return finish_undecided_or_replay(pid, tier, seed, t0, "extraction: " + err, plan)
+          attr = vx.Attribution(mp)
+          # the vacuity-probe build runs concurrently with the main run
+          NSHARD = 1
+          pshards, perr = [], None
+          if os.environ.get("VERIF_NO_PROBES"):
+              # scratch evaluation of seeded changes: the probes guard the CONTRACTS against vacuity and are run by every
+              # registered check; they say nothing about an edited tree
+              perr = "skipped (VERIF_NO_PROBES)"
+          for sh in range(NSHARD if perr is None else 0):
+              ppath, pmp, e = vx.extract(bdir, probes=True, name="fb_probe%d" % sh, probe_prop=(None if tier == "thorough" else pid), shard=(NSHARD, sh), assume_fns=assume_fns)
+              if e is not None:
+                  perr = e
+                  break
+              pshards.append((ppath, pmp, vx.start_verus(ppath, seed=seed, multiple_errors=400, threads=12, rlimit=60)))
+          res = vx.run_verus(path, seed=seed, threads=12)
+          verus_info = res
+          if res["json"] is None:
+              return finish_undecided_or_replay(pid, tier, seed, t0, "verus produced no result: " + res["stderr"][-600:], plan)
+          failures, cerrs, rl = vx.classify(res["diags"], attr)
+          if cerrs and attempt < 3:
+              # which functions does the verifier reject?  Demote them to their contracts (callers are still checked
+              # against those) and try again: the properties they carry become undecided, the others are decided normally
+              bad = set()
+              for d in cerrs:
+                  for sp in d.get("spans", []):
+                      f = attr.fn_at(sp["line_start"])
+                      if f and f.get("mode") == "verify":
+                          bad.add(f["fn"])
+              bad -= set(assume_fns)
+              if bad:
+                  assume_fns += sorted(bad)
+                  for _pp, _pm, pst in pshards:
+                      try:
+                          vx.finish_verus(pst)
+                      except Exception:
+                          pass
+                  continue
+          break
         if cerrs:
             msg = "; ".join(sorted(set(d.get("message", "")[:200] for d in cerrs))[:4])
             # the verifier cannot read the edited code; the syntactic frames still can (they look at /repo's AST, not at the
@@ -281,7 +303,7 @@ def run_check(pid, tier, seed):
         import replaydriver
         iters = sdef.get("iters", 3000) * (4 if tier == "thorough" else 1)
         found, cmd = replaydriver.run(sdef["replay_prop"], seed or 1, iters, timeout=(240 if tier == "thorough" else 60))
-        row = {"harness": sdef["name"], "bound": "%d random operation histories (seed %d), <= 18 operations each, capacities 1..3, fb-replay %s" % (iters, seed or 1, sdef["replay_prop"]),
+        row = {"harness": sdef["name"], "bound": "%d random operation histories (seed %d; <= 18 operations each, every fifth one of an unbounded collection up to 45; capacities 0..3; bursts crossing the 61-poll budget and the 32/64/128 group sizes) plus the fixed scenario families of this property, fb-replay %s" % (iters, seed or 1, sdef["replay_prop"]),
                "covers_assumed": sdef.get("covers", ""), "ok": found is None, "cmd": cmd, "bounded": True}
         if isinstance(cmd, str) and found is None and (cmd.startswith("replay driver does not build") or cmd == "timeout"):
             row["ok"] = True
@@ -379,6 +401,8 @@ def run_check(pid, tier, seed):
                 mine_fns.add(f.get("fn"))
             if not str(f.get("message", "")).startswith("postcondition"):
                 masking_fns.setdefault(f.get("fn"), []).extend(f.get("labels") or ["(unlabelled)"])
+        for lost in mp.get("anchor_lost", []):
+            masking_fns.setdefault(lost["fn"], []).append("(body not verified: %s)" % lost["why"][:160])
         aff = [ff["fn"] for ff in mp["functions"] if ff["fn"] in masking_fns and pid in ff["props"] and ff["fn"] not in mine_fns]
         if aff:
             import replaydriver
